@@ -510,6 +510,10 @@ pub fn run(a: &ShardArgs) -> Result<(), String> {
     if only.is_none() {
         direct(a);
     }
+    if a.extra.iter().any(|x| x == "--direct-only") {
+        // interpreter runs: parsers, formatters, extraction, link and transport readers only (no sessions)
+        return Ok(());
+    }
     let n = a.n(6000);
     for idx in 0..n {
         if idx % a.nshards != a.shard {
